@@ -92,6 +92,8 @@ def make_jobs(ctx, stride=1, channels=(1, 2, 3), skip_major=(0x16,)):
         loss = G.lossless_types(f)
         for ch in sorted(set(min(c, f.maxch) for c in channels)):
             sr = rng.choice([8000, 8000, 11025, 44100, 48000, 1, 65535, 96000])
+            if rng.random() < 0.2:
+                sr = rng.choice([65536, 2 ** 30 - 1, 2 ** 30, 2 ** 30 + 1, 2 ** 31 - 1])      # the property quantifies over [1, 2^31-1]
             if f.major == 0x11 and sr < 4000:   # SDS stores the sample period in ns: very low rates are outside its field
                 sr = 8000
             B = G.block_frames(f, ch, sr)
@@ -219,8 +221,17 @@ def analyse(j, script1, a, script2, b):
     if dump2 is not None and dump1.split("hex=")[1] != dump2.split("hex=")[1]:
         h1, h2 = dump1.split("hex=")[1], dump2.split("hex=")[1]
         d = next((i for i in range(0, min(len(h1), len(h2)), 2) if h1[i:i + 2] != h2[i:i + 2]), min(len(h1), len(h2)))
-        P("partition", "file bytes differ between one call and the split %s (with%s header updates): first difference at byte offset %d (%s vs %s), lengths %d / %d"
-          % (j.parts[:12], "" if j.snaps else "out", d // 2, h1[d:d + 8], h2[d:d + 8], len(h1) // 2, len(h2) // 2), 2, None)
+        # are all differing bytes inside the PEAK chunk? (its content is the subject of C18; two C18 findings make it depend on the split)
+        only_peak = False
+        if len(h1) == len(h2):
+            b1 = bytes.fromhex(h1)
+            pk = max(b1.find(b"PEAK"), b1.find(b"peak"))
+            if pk >= 0:
+                lo, hi = pk, pk + 32 + 12 * j.ch
+                only_peak = all(lo <= i // 2 < hi for i in range(0, len(h1), 2) if h1[i:i + 2] != h2[i:i + 2])
+        r["partition_only_peak"] = only_peak
+        P("partition", "%sfile bytes differ between one call and the split %s (with%s header updates): first difference at byte offset %d (%s vs %s), lengths %d / %d"
+          % ("[only PEAK chunk bytes] " if only_peak else "", j.parts[:12], "" if j.snaps else "out", d // 2, h1[d:d + 8], h2[d:d + 8], len(h1) // 2, len(h2) // 2), 2, None)
     # ---- snapshots ----
     pos = sl2.index("dump s1") + 1
     for (st, nf) in j.snaps:
